@@ -51,11 +51,11 @@ copy_vs(int32 infile_id, int32 outfile_id, int32 tag, /* tag of input VS */
     uint8 *buf = NULL;
     int    ret = 0;
 
-    if (NULL == (vdata_name = calloc(1, VSNAMELENMAX))) {
+    if (NULL == (vdata_name = calloc(1, VSNAMELENMAX + 1))) {
         ret = -1;
         goto out;
     }
-    if (NULL == (vdata_class = calloc(1, VSNAMELENMAX))) {
+    if (NULL == (vdata_class = calloc(1, VSNAMELENMAX + 1))) {
         ret = -1;
         goto out;
     }
@@ -86,11 +86,9 @@ copy_vs(int32 infile_id, int32 outfile_id, int32 tag, /* tag of input VS */
     }
 
     /* ignore reserved HDF groups/vdatas; they are lone ones */
-    if (is_lone == 1 && vdata_class[0] == '\0') {
+    if (is_lone == 1 && vdata_class[0] != '\0') {
         if (is_reserved(vdata_class)) {
-            if (VSdetach(vdata_id) == FAIL)
-                printf("Failed to detach vdata <%s>\n", path_name);
-            ret = 0;
+            ret = 0; /* the vdata is detached below */
             goto out;
         }
     }
